@@ -9,6 +9,7 @@ SWrite == Write /\ ~AllGot
 SProgress(e) == Progress(e) /\ (e = R \/ R \in got)
 SJoinAll == JoinAll /\ got = 1..R
 SAnnounce == Announce /\ ~AllGot
-SimNext == SWrite \/ SAnnounce \/ (\E e \in 1..R : SProgress(e)) \/ SJoinAll
+SAnnRead == AnnRead /\ ~AllGot
+SimNext == SWrite \/ SAnnounce \/ SAnnRead \/ AnnSet \/ (\E e \in 1..R : SProgress(e)) \/ SJoinAll
 SimSpec == Init /\ [][SimNext]_vars
 =============================================================================
